@@ -1,0 +1,37 @@
+//go:build verif
+
+package btree
+
+// Verification hooks (build tag verif only): a read-only dump of the node structure, so that a
+// checker can decide well-formedness (occupancy bounds, uniform leaf depth, ordering, length)
+// without predicting the shape.
+
+// VerifNode is a copy of one node: its items in order and its children in order (empty for a
+// leaf).  Owned reports whether the node belongs to the dumped tree's copy-on-write context.
+type VerifNode struct {
+	Items    []Item
+	Children []*VerifNode
+	Owned    bool
+}
+
+// VerifDump returns the degree, the length counter and a deep copy of the node structure
+// (nil when the tree has no root).  It must not run concurrently with a write to the same tree.
+func (t *BTree) VerifDump() (degree int, length int, root *VerifNode) {
+	return t.degree, t.length, verifCopy(t.root, t.cow)
+}
+
+func verifCopy(n *node, cow *copyOnWriteContext) *VerifNode {
+	if n == nil {
+		return nil
+	}
+	var out = &VerifNode{
+		Items:    make([]Item, len(n.items)),
+		Children: make([]*VerifNode, 0, len(n.children)),
+		Owned:    n.cow == cow,
+	}
+	copy(out.Items, n.items)
+	for _, c := range n.children {
+		out.Children = append(out.Children, verifCopy(c, cow))
+	}
+	return out
+}
